@@ -1,0 +1,55 @@
+// MIT License
+//
+// Copyright (c) 2022-2026 GoAkt Team
+//
+// Permission is hereby granted, free of charge, to any person obtaining a copy
+// of this software and associated documentation files (the "Software"), to deal
+// in the Software without restriction, including without limitation the rights
+// to use, copy, modify, merge, publish, distribute, sublicense, and/or sell
+// copies of the Software, and to permit persons to whom the Software is
+// furnished to do so, subject to the following conditions:
+//
+// The above copyright notice and this permission notice shall be included in all
+// copies or substantial portions of the Software.
+//
+// THE SOFTWARE IS PROVIDED "AS IS", WITHOUT WARRANTY OF ANY KIND, EXPRESS OR
+// IMPLIED, INCLUDING BUT NOT LIMITED TO THE WARRANTIES OF MERCHANTABILITY,
+// FITNESS FOR A PARTICULAR PURPOSE AND NONINFRINGEMENT. IN NO EVENT SHALL THE
+// AUTHORS OR COPYRIGHT HOLDERS BE LIABLE FOR ANY CLAIM, DAMAGES OR OTHER
+// LIABILITY, WHETHER IN AN ACTION OF CONTRACT, TORT OR OTHERWISE, ARISING FROM,
+// OUT OF OR IN CONNECTION WITH THE SOFTWARE OR THE USE OR OTHER DEALINGS IN THE
+// SOFTWARE.
+
+package address
+
+import (
+	"testing"
+
+	"github.com/stretchr/testify/require"
+)
+
+// An IPv6 host is embedded raw (un-bracketed) by String(); Parse must read it back.
+func TestParseRoundTripIPv6(t *testing.T) {
+	hosts := []string{"::1", "::", "fe80::1", "2001:db8::8:800:200c:417a", "::ffff:1.2.3.4", "fe80::1%eth0"}
+	for _, host := range hosts {
+		parent := New("parent", "system", host, 9000)
+		for _, addr := range []*Address{New("name", "system", host, 9000), NewWithParent("name", "system", host, 9000, parent)} {
+			require.NoError(t, addr.Validate())
+
+			parsed, err := Parse(addr.String())
+			require.NoError(t, err, addr.String())
+			require.True(t, addr.Equals(parsed))
+			require.Equal(t, host, parsed.Host())
+			require.Equal(t, 9000, parsed.Port())
+			require.Equal(t, addr.String(), parsed.String())
+
+			if addr.Parent() != nil {
+				require.Equal(t, "parent", parsed.Parent().Name())
+			}
+
+			hostPort, ok := HostPortOf(addr.String())
+			require.True(t, ok)
+			require.Equal(t, FormatHostPort(host, 9000), hostPort)
+		}
+	}
+}
